@@ -43,8 +43,8 @@ Proof.
   rewrite firstn_all_eq in Hf by lia.
   destruct H2 as [[-> ->]|(e & ws & -> & E1 & E2 & E3 & E4 & E5)].
   { eexists; exists []. repeat split. }
-  assert (Hshape : forall st3 evs3 ok3, starts_fresh (p_heap st) (mkEv T_RESET 0 (p_tmax st) (p_rep st) [] [] [] w' 0 [] (p_heap st) (p_heap st ++ ext) :: [e] ++ evs3) ok3).
-  { intros _ evs3 ok3. eexists; eexists. split; [reflexivity|]. split; [reflexivity|]. split; [reflexivity|]. cbn [app].
+  assert (Hshape : forall evs3 ok3, starts_fresh (p_heap st) (mkEv T_RESET 0 (p_tmax st) (p_rep st) [] [] [] w' 0 [] (p_heap st) (p_heap st ++ ext) :: [e] ++ evs3) ok3).
+  { intros evs3 ok3. eexists; eexists. split; [reflexivity|]. split; [reflexivity|]. split; [reflexivity|]. cbn [app].
     unfold st1 in E2, E3, E4, E5; cbn in E2, E3, E4, E5.
     rewrite Hf, somes_map_Some in E3. injection E3 as <-. rewrite E4 in E5.
     split; [exact E1|]. split; [exact E2|]. split; [rewrite E5, snap_contents; eapply contents_of_copies; eauto|].
@@ -61,8 +61,8 @@ Proof.
       exact (Hfc d' kvs k l1 (Hds _ Hd') Eg Hk). }
     split; intros l Hin; apply Hall in Hin; [lia|]. intros Hs. apply (SR_below h0 start Hwf) in Hs. lia. }
   destruct ok2.
-  - destruct (tail st2) as [[st3 evs3] ok3]. cbn [app]. apply (Hshape st3 evs3 ok3).
-  - cbn [app]. specialize (Hshape st2 [] false). now rewrite app_nil_r in Hshape.
+  - destruct (tail st2) as [[st3 evs3] ok3]. cbn [app]. apply (Hshape evs3 ok3).
+  - cbn [app]. specialize (Hshape [] false). now rewrite app_nil_r in Hshape.
 Qed.
 
 Theorem replicate_starts_fresh ops ngen li mv lo st :
@@ -106,7 +106,7 @@ Proof.
   pose proof (ispec_replicate h0 start Hwf Hlen5 ops Hops ngen li lo st Hi) as HI.
   destruct (replicate ops ngen li st) as [[st1 ev1] ok1]. destruct ok1.
   - destruct HI as (I1 & _). specialize (I1 eq_refl).
-    assert (I1' : inv h0 start false lo st1) by (eapply inv_lo; [|exact I1]; exact Hlo).
+    assert (I1' : inv h0 start false lo st1) by exact (inv_lo h0 start Hlen5 false 1%Z lo st1 Hlo I1).
     specialize (IH st1 I1'). destruct (iter n (replicate ops ngen li) st1) as [[st2 ev2] ok2]. cbn [fst snd] in *.
     eapply RT_more; eauto.
   - cbn [fst snd]. now apply RT_last.
